@@ -313,3 +313,41 @@ _add("C17",
 _add("C18",
      text="Also decided: every iteration of the word loop reaches the first-word test (or upper-cases anyway) before the next starts.",
      technique="must-pass-through over the word loop")
+
+# ---- wave 5 (seed round 7, 2026-09-27)
+_add("C04",
+     text="Also decided: the inline-tag scanner of the JSDoc / Javadoc parsers resumes exactly at the end of the range it marked.",
+     technique="symbolic linear forms of the marked range and the cursor assignment")
+_add("C06",
+     text="Also decided: no unregistered static with interior mutability exists in the workspace (a look-up cache keyed by the word alone would replay one dictionary's answer for another).",
+     technique="rule instances shared with C05 (census of statics)")
+_add("C08",
+     text="Also decided: every path through generate_code_actions runs the linter and selects lints by overlap with the requested position.",
+     technique="must-pass-through over generate_code_actions")
+_add("C10",
+     text="Also decided: main makes no network association of any socket API (std, unix-domain, tokio, mio, socket2) other than the TcpListener::bind its editor connects to.",
+     technique="socket-call census in main, helpers spliced in")
+_add("C11",
+     text="Also decided: inside the rule loops no condition on the way to a rule's run reads another rule's switch.",
+     technique="gate census per rule invocation")
+_add("C12",
+     text="Also decided: lint vectors are only sorted with stable sorts (tied lints of sibling sub-rules would otherwise be ordered by the size of the whole document).",
+     technique="who-may-call rule for sort_unstable* on lint vectors")
+_add("C14",
+     text="Also decided: the JavaScript-facing linter hashes an ignored lint against a Document built with the same parser and dictionary as Linter::lint.",
+     technique="rule instances shared with C16")
+_add("C15",
+     text="Also decided: the per-thread cache of automaton builders is looked up by equality with the requested distance only.",
+     technique="comparison census in build_dfa")
+_add("C16",
+     text="Also decided: lint, ignore_lint and apply_suggestion build their Document from the text handed over by chars().collect() and copies only.",
+     technique="verbatim-source provenance")
+_add("C17",
+     text="Also decided: every Document constructor that takes a text builds its character vector from it by chars().collect() and copies only (no normalising step behind which spans would be displaced).",
+     technique="verbatim-source provenance; element-dropping operations on hand-filled vectors")
+_add("C18",
+     text="Also decided: the patterns of the Document condensing passes contain no case-sensitive word step (the tokens of title-cased output would differ from those of its input).",
+     technique="pattern-shape rule over the uncached_*_pattern builders")
+_add("C19",
+     text="Also decided: a one-sided serde `from = String` on a field-less enum is evaluated against the derived writer, variant by variant.",
+     technique="decision-table evaluation of From<String> over the variant names")
